@@ -502,11 +502,19 @@ func (v *Verifier) applyContractNamed(s *State, fc *FuncContract, sig *types.Sig
 	ev2 := &Eval{v: v, st: s, old: pre, env: env, mode: evalCall, fc: fc}
 	for _, c := range fc.Clauses {
 		if c.Kind == "ensures" && !c.IsLoop {
+			// an ensures clause of an assumed (interface / foreign) contract that is tagged with properties is an assumption
+			// made only while checking those properties (e.g. "the TOC is well formed" for C02 but not for C04)
+			if len(c.Props) > 0 && (fc.Trusted || ifaceRecv) && !hasProp(c.Props, curProp) {
+				continue
+			}
 			s.assume(ev2.boolExpr(c.Expr))
 		}
 	}
 	return res
 }
+
+// curProp is the property being checked.
+var curProp = ""
 
 func recvName(sig *types.Signature, fc *FuncContract) string {
 	if fc != nil && fc.RecvName != "" {
